@@ -703,6 +703,25 @@ func drawC19(t *rapid.T) *Case {
 				ln = rapid.IntRange(0, 64).Draw(t, "plen2")
 			}
 			f.Payload = rapid.SliceOfN(rapid.Byte(), ln, ln).Draw(t, "payload")
+			if drawBool(t, "edgepayload", 35) {
+				// payloads on parser boundaries: zero / maximal / reserved-bit words, pad-length
+				// octets around the frame length
+				edge := [][]byte{{0, 0, 0, 0}, {0x80, 0, 0, 0}, {0x7f, 0xff, 0xff, 0xff}, {0xff, 0xff, 0xff, 0xff}, {0, 0, 0, 1}, {0x80, 0, 0, 1}}
+				w := edge[rapid.IntRange(0, len(edge)-1).Draw(t, "edgeword")]
+				switch f.Type {
+				case FWindowUpdate, FRSTStream:
+					f.Payload = append([]byte(nil), w...)
+				case FPriority:
+					f.Payload = append(append([]byte(nil), w...), byte(rapid.IntRange(0, 255).Draw(t, "edgeweight")))
+				case FGoAway:
+					f.Payload = append(append([]byte(nil), w...), 0, 0, 0, 0)
+				case FHeaders, FData, FPushPromise:
+					if len(f.Payload) > 0 {
+						l := len(f.Payload)
+						f.Payload[0] = byte([]int{0, l - 7, l - 6, l - 5, l - 2, l - 1, l, l + 1, 255}[rapid.IntRange(0, 8).Draw(t, "edgepad")] & 0xff)
+					}
+				}
+			}
 			frames = append(frames, f)
 		}
 		raw := rapid.SliceOfN(rapid.Byte(), 0, 40).Draw(t, "rawtail")
